@@ -504,12 +504,23 @@ deriving Repr, DecidableEq
 def locPrefix (loc : Loc) : List Char :=
   "line ".toList ++ Nat.toDigits 10 loc.line ++ " column ".toList ++ Nat.toDigits 10 loc.column
 
-/-- `Snippet::fmt_or_fallback` up to the call of the external renderer; `msg` is the formatted message
-(it is passed through as it is) -/
+/-- `sanitize_terminal_message`: the sanitiser of the snippet source, applied to message text
+(borrowed unchanged when already clean) -/
+def sanitizeMessage (msg : List Char) : Res (List Char) :=
+  if isClean msg then .ok msg else sanitize msg
+
+/-- `Snippet::fmt_or_fallback` up to the call of the external renderer; `msg` is the formatted message:
+it is sanitised first, and so is the whole title. A location on the empty line after the input's
+final line break gets that line terminated in the source handed over, so that the renderer shows it. -/
 def snippetRequest (text : List Char) (loc : Loc) (m : Mapping) (cropRadius : Nat) (msg : List Char) :
     Res (Option RenderRequest) := do
+  let msg ← sanitizeMessage msg
   let some p ← prepare text loc m cropRadius | pure none
-  pure (some ⟨locPrefix loc ++ ": ".toList ++ msg, p.windowText, p.displayStartRow, p.localStart, p.localEnd, msg⟩)
+  let source :=
+    if p.row = p.totalLines ∧ p.localStart = blen p.windowText ∧ p.windowText.getLast? = some '\n'
+    then p.windowText ++ ['\n'] else p.windowText
+  let title ← sanitizeMessage (locPrefix loc ++ ": ".toList ++ msg)
+  pure (some ⟨title, source, p.displayStartRow, p.localStart, p.localEnd, msg⟩)
 
 /-! ## `fmt_snippet_window_with_mapping_or_fallback` (the crate's own window renderer) -/
 
@@ -544,6 +555,7 @@ def fmtLines (wt : List Char) (localStart : Nat) (msg : List Char) (row wsr wer 
 
 /-- `fmt_snippet_window_with_mapping_or_fallback`: the text written to the formatter -/
 def fmtWindow (text : List Char) (loc : Loc) (m : Mapping) (msg : List Char) (cropRadius : Nat) : Res (List Char) := do
+  let msg ← sanitizeMessage msg
   let some p ← prepare text loc m cropRadius | pure []
   let maxDisplayRow := absoluteRow m p.windowEndRow
   let gutter := (natStr maxDisplayRow).length
@@ -571,13 +583,22 @@ structure Region where
   endLine : Nat
 deriving Repr
 
+/-- `cropped_region_end_line`: the window keeps `ctxLines` lines after the error line, clipped to the
+last line of the text (the empty line after a final line break counts as a line of the text) -/
+def regionEndLine (text : List Char) (m : Mapping) (loc : Loc) : Nat :=
+  let firstTextLine := match m with
+    | none => 1
+    | some s => s
+  let lastTextLine := satAdd firstTextLine (lineCount text - 1)
+  min (satAdd loc.line ctxLines) lastTextLine
+
 /-- `push_region_for_location` -/
 def regionFor (text : List Char) (loc : Loc) (m : Mapping) (cropRadius : Nat) : Res (Option Region) :=
   if cropRadius = 0 ∨ loc.isUnknown then .ok none
   else do
     let (cropped, startLine) ← cropSourceWindow text loc m cropRadius
     if cropped.isEmpty then pure none
-    else pure (some ⟨cropped, startLine, satAdd startLine (lineCount cropped - 1)⟩)
+    else pure (some ⟨cropped, startLine, regionEndLine text m loc⟩)
 
 /-- regions of `Error::Message{location}.with_snippet(text, r)` (`m = none`) /
 `.with_snippet_offset(text, n, r)` (`m = some n`): one location, BOM stripped first -/
@@ -664,6 +685,8 @@ structure Ring where
   buf : List Nat
   startOffset : Nat
   startLine : Nat
+  /-- `ring_starts_line`: nothing evicted yet, or the last evicted byte was a line break -/
+  startsLine : Bool := true
 deriving Repr
 
 def ringCap : Nat := Gen.ringBufferSize
@@ -676,7 +699,8 @@ def ringPush1 (cap : Nat) (r : Ring) (off b : Nat) : Ring :=
     if r1.buf.length = cap then
       match r1.buf with
       | e :: tl => { buf := tl, startOffset := r1.startOffset + 1,
-                     startLine := if e = 0x0A then satAdd r1.startLine 1 else r1.startLine }
+                     startLine := if e = 0x0A then satAdd r1.startLine 1 else r1.startLine,
+                     startsLine := decide (e = 0x0A) }
       | [] => { r1 with startOffset := r1.startOffset + 1 }
     else r1
   { r2 with buf := r2.buf ++ [b] }
@@ -691,10 +715,35 @@ Returns `(start_offset, end_offset, start_line, bytes)`. -/
 def ringRun (cap ahead : Nat) (data : List Nat) (consumed : Nat) : Res (Nat × Nat × Nat × List Nat) :=
   let returned := min consumed data.length
   let seen := data.take (returned + ahead)
-  let r := ringPush cap ⟨[], 0, 1⟩ 0 seen
+  let r := ringPush cap ⟨[], 0, 1, true⟩ 0 seen
   if r.buf.isEmpty then .ok (returned, returned, r.startLine, [])
   else do
     let (so, sl, bs) ← ringTrim r.buf r.startOffset r.startLine
     pure (so, so + bs.length, sl, bs)
+
+/-- `RecentSnapshot::line_aligned_text` on a snapshot with text `text` (`String::from_utf8_lossy` of
+its bytes): when the snapshot does not start at the beginning of a line, the partial first line is
+left out and the line number advances -/
+def lineAligned (startsAtLineStart : Bool) (text : List Char) (startLine : Nat) : List Char × Nat :=
+  if startsAtLineStart then (text, startLine)
+  else ((text.dropWhile (· ≠ '\n')).drop 1, satAdd startLine 1)
+
+/-- `get_recent()` followed by `line_aligned_text()` (what `from_reader` attaches as snippet text):
+`(starts_at_line_start, text, start_line)`. `from_utf8_lossy` is only modelled on valid UTF-8. -/
+def ringRunAligned (cap ahead : Nat) (data : List Nat) (consumed : Nat) : Res (Bool × List Char × Nat) :=
+  let returned := min consumed data.length
+  let seen := data.take (returned + ahead)
+  let r := ringPush cap ⟨[], 0, 1, true⟩ 0 seen
+  if r.buf.isEmpty then
+    let (t, l) := lineAligned r.startsLine [] r.startLine
+    .ok (r.startsLine, t, l)
+  else do
+    let (so, sl, bs) ← ringTrim r.buf r.startOffset r.startLine
+    let starts := r.startsLine && decide (so = r.startOffset)
+    match decode bs with
+    | none => .panic "unmodelled:from_utf8_lossy"
+    | some text =>
+      let (t, l) := lineAligned starts text sl
+      pure (starts, t, l)
 
 end SaphyrVerif.Snippet
